@@ -518,9 +518,10 @@ def sweep_c11(tier, seed):
             viol.append({"name": "C11.native.thick_map.vector_layer", "input": r["input"], "observed": r["what"]})
             break
     # 2-D datasets have no depth: the normal is the zero vector and every depth sample is the same point
-    for s in range(max(6, n // 10)):
+    # (the first case is a fixed configuration of the recorded finding, so that it is reported for every seed)
+    for s in [3] + [seed * 613 + s for s in range(max(6, n // 10))]:
         cases += 1
-        if attempt("C11.native.thick_map.ndim2", seed * 613 + s, force={"ndim": 2}):
+        if attempt("C11.native.thick_map.ndim2", s, force={"ndim": 2}):
             break
     return {"status": "violation" if viol else "ok", "cases": cases, "distinct": cases, "violations": viol,
             "samples": [{"seed": seed * 15485863}], "kind": "bounded-native"}
